@@ -369,6 +369,13 @@ def directed():
     for silent in (True, False):
         S.append(("restart-dialler-%s" % silent, base, up + [["restart", 1, silent], ["heal"]]))
         S.append(("restart-acceptor-%s" % silent, base, up + [["restart", 0, silent], ["heal"]]))
+    # the dialling peer loses power (no FIN/RST) and dials again within connectionTimeout: the acceptor still holds the
+    # half-open connection as CONNECTED when the new one introduces itself -> disconnected, then connected
+    S.append(("power-loss-and-redial", base, up + [["send", 1, ["tcp", 0], 1, False, False], ["dlv*", 1, 0, 0, 99],
+                                                   ["adv", 500], ["restart", 1, True], ["adv", 300], ["tick", 1, []],
+                                                   ["syn_ok*", 1, 0], ["accept", 0], ["cev*", 1, 0, False, False],
+                                                   ["dlv*", 1, 0, 0, 99], ["send", 0, ["tcp", 1], 2, False, False],
+                                                   ["dlv*", 1, 0, 1, 99], ["heal"]]))
     # simultaneous reconnect from both sides: 3 nodes, the middle one loses both connections at once
     b3 = {"n": 3, "retry": 512, "timeout": 4096}
     up3 = [["tick", 0, []], ["tick", 1, []], ["tick", 2, []]]
